@@ -196,9 +196,40 @@ def bad_entry(draw):
   return (name, {'a': 1}), 'datapoint-dict'
 
 
+def deep_object_ops(depth, kind):
+  """pickle opcodes that build a list / tuple / dict nested `depth` levels deep (the pickler itself cannot write
+  such a thing, a hostile or broken client can)"""
+  if kind == 'list':
+    return b']' * depth + b'a' * (depth - 1)
+  if kind == 'tuple':
+    return b')' + b'\x85' * (depth - 1)
+  raise ValueError(kind)
+
+
 @st.composite
 def pickle_frame_item(draw):
-  k = draw(st.integers(0, 29))
+  k = draw(st.integers(0, 31))
+  if k >= 30:
+    # a well-formed list of entries one of which carries a deeply nested object where a name / number belongs
+    depth = draw(st.sampled_from([50, 5000, 5000, 40000]))
+    deep = deep_object_ops(depth, draw(st.sampled_from(['list', 'tuple'])))
+    where = draw(st.sampled_from(['name', 'name', 'value', 'timestamp', 'entry']))
+    good1, good2 = draw(good_entry_objs()), draw(good_entry_objs())
+
+    def entry_ops(e):
+      return pickle.dumps(e, protocol=2)[2:-1]           # strip PROTO and STOP: pushes the entry on the stack
+    if where == 'name':
+      bad = deep + b'K\x01K\x02\x86\x86'
+    elif where == 'value':
+      bad = b'X\x03\x00\x00\x00d.v' + deep + b'K\x02\x86\x86'
+    elif where == 'timestamp':
+      bad = b'X\x03\x00\x00\x00d.t' + b'K\x01' + deep + b'\x86\x86'
+    else:
+      bad = deep
+    payload = b'\x80\x02](' + entry_ops(good1) + bad + entry_ops(good2) + b'e.'
+    exp = [[e[0], float(e[1][0]), float(e[1][1])] for e in (good1, good2)]
+    return {'kind': 'good', 'hex': h(pkl.int32_frame(payload)), 'expected': exp,
+            'cls': 'good-frame-with-bad-entry:deeply-nested-%s' % where}
   if k < 8:
     # good frame, possibly with malformed entries in between good ones
     entries = []
